@@ -180,17 +180,17 @@ def items(tier, rng):
     inst = INST if q else INST + [(12, [3, 4, 5]), (12, [5, 7]), (11, [2, 3, 7]), (12, [4, 5, 6])]
     for (W, sizes) in inst:
         out.append({"name": "cg_%d_%s" % (W, "_".join(map(str, sizes))), "harness": "h_cg", "params": {"W": W, "sizes": sizes, "D": D},
-                    "max_paths": 600, "split": 4})
+                    "max_paths": 600, "spread": rng.randrange(1 << 30), "split": 4})
     # four and five piece types (degenerate column-generation steps start to occur here), smaller demand range
     for (W, sizes) in (INST4[:6] if q else INST4):
         out.append({"name": "cg4_%d_%s" % (W, "_".join(map(str, sizes))), "harness": "h_cg", "params": {"W": W, "sizes": sizes, "D": 4 if q else 6},
-                    "max_paths": 800, "split": 4})
+                    "max_paths": 800, "spread": rng.randrange(1 << 30), "split": 4})
     for (W, sizes) in ([inst[0], inst[2], inst[3], inst[1], inst[4]] if q else inst):
         for vec in itertools.product(range(Db + 1), repeat=len(sizes)):
             out.append({"name": "bp_%d_%s" % (W, "_".join(map(str, sizes))), "harness": "h_bp",
                         "params": {"W": W, "sizes": sizes, "D": Db, "fixed": list(vec)}})
     for pool, init in POOLS:
-        out.append({"name": "cg_custom", "harness": "h_cg_custom", "params": {"pool": pool, "initial": init, "D": D}, "max_paths": 600})
+        out.append({"name": "cg_custom", "harness": "h_cg_custom", "params": {"pool": pool, "initial": init, "D": D}, "max_paths": 600, "spread": rng.randrange(1 << 30)})
         out.append({"name": "bp_custom", "harness": "h_bp_custom", "params": {"pool": pool, "initial": init, "D": Db}, "split": 2})
     # restricted master LP as a unit: seeded column sets (2-3 rows, 3-5 columns, entries 0..3), every demand vector
     for _ in range(60 if q else 600):
@@ -200,9 +200,9 @@ def items(tier, rng):
             c = tuple(rng.randint(0, 3) for _ in range(m))
             if any(c) and c not in cols:
                 cols.append(c)
-        out.append({"name": "master", "harness": "h_master", "params": {"columns": cols, "D": 6 if q else 10}, "max_paths": 400})
+        out.append({"name": "master", "harness": "h_master", "params": {"columns": cols, "D": 6 if q else 10}, "max_paths": 400, "spread": rng.randrange(1 << 30)})
     for pool, init in EXTRA_POOLS:
-        out.append({"name": "cg_custom", "harness": "h_cg_custom", "params": {"pool": pool, "initial": init, "D": D}, "max_paths": 600})
+        out.append({"name": "cg_custom", "harness": "h_cg_custom", "params": {"pool": pool, "initial": init, "D": D}, "max_paths": 600, "spread": rng.randrange(1 << 30)})
     for it in out:
         if it.get("split") is None:
             it.pop("split", None)
